@@ -282,7 +282,7 @@ func violationConfirmed(v *symgo.Violation, r replayResult) bool {
 		}
 		return false
 	case "panic":
-		return strings.HasPrefix(r.Result, "panic:")
+		return strings.HasPrefix(r.Result, "panic:") || strings.Contains(r.Result, "|panic:")
 	case "fatal", "deadlock":
 		return strings.HasPrefix(r.Result, "fatal:") || r.Result == "timeout" || r.Result == "crash"
 	case "nontermination":
